@@ -25,7 +25,21 @@ type Emitter struct {
 	// Refined: use the refined intervals (see (*Ctx).Refine); only valid in scripts that also
 	// assert the range facts of the constraint set.
 	Refined bool
+	Prefix  string
 	AtomsSeen   []*Term
+}
+
+// Fork returns an emitter that appends to its own buffer but shares the atom / function
+// declarations of em: atoms already declared by em are not declared again, every node defined by
+// the fork gets the given name prefix. Used to print a second copy of a DAG under a substitution.
+func (em *Emitter) Fork(prefix string, subst map[*Term]*Term) *Emitter {
+	f := &Emitter{names: map[*Term]string{}, ufs: em.ufs, Lift: em.Lift, Unfold: em.Unfold, Subst: subst, NoAtomRange: em.NoAtomRange, Refined: em.Refined, Prefix: prefix}
+	for t, n := range em.names {
+		if t.Op == OpAtom || t.Op == OpConst {
+			f.names[t] = n
+		}
+	}
+	return f
 }
 
 func NewEmitter() *Emitter {
@@ -141,7 +155,7 @@ func (em *Emitter) define(t *Term, kids []*Term) {
 		em.AtomsSeen = append(em.AtomsSeen, t)
 		return
 	}
-	name := fmt.Sprintf("n%d", t.ID)
+	name := fmt.Sprintf("%sn%d", em.Prefix, t.ID)
 	var expr string
 	a := func(i int) string { return em.names[em.resolve(t.Args[i])] }
 	switch t.Op {
@@ -154,7 +168,7 @@ func (em *Emitter) define(t *Term, kids []*Term) {
 		if wrap && !em.Lift {
 			// value = expr mod r, written with an explicit (uniquely determined) quotient: this
 			// is much easier for the solvers than `mod` by a 254-bit constant
-			fmt.Fprintf(&em.sb, "(declare-const k%d Int)\n(define-fun %s () Int (- %s (* k%d %s)))\n(assert (and (<= 0 %s) (< %s %s)))\n", t.ID, name, expr, t.ID, R, name, name, R)
+			fmt.Fprintf(&em.sb, "(declare-const %sk%d Int)\n(define-fun %s () Int (- %s (* %sk%d %s)))\n(assert (and (<= 0 %s) (< %s %s)))\n", em.Prefix, t.ID, name, expr, em.Prefix, t.ID, R, name, name, R)
 			em.names[t] = name
 			return
 		}
